@@ -93,28 +93,37 @@ parser! {
 				DestructRest::Keep(into)
 			} else {DestructRest::Drop}}
 		pub rule destruct_array(s: &ParserSettings) -> Destruct
-			= "[" _ start:destruct(s)**comma() rest:(
-				comma() _ rest:destruct_rest()? end:(
+			= "[" _ body:(
+				rest:destruct_rest() end:(
 					comma() end:destruct(s)**comma() (_ comma())? {end}
 					/ comma()? {Vec::new()}
-				) {(rest, end)}
-				/ comma()? {(None, Vec::new())}
+				) {(Vec::new(), Some(rest), end)}
+				/ start:destruct(s)**comma() rest:(
+					comma() _ rest:destruct_rest()? end:(
+						comma() end:destruct(s)**comma() (_ comma())? {end}
+						/ comma()? {Vec::new()}
+					) {(rest, end)}
+					/ comma()? {(None, Vec::new())}
+				) {(start, rest.0, rest.1)}
 			) _ "]" {?
+				let (start, rest, end) = body;
 				#[cfg(feature = "exp-destruct")] return Ok(Destruct::Array {
 					start,
-					rest: rest.0,
-					end: rest.1,
+					rest,
+					end,
 				});
 				#[cfg(not(feature = "exp-destruct"))] Err("!!!experimental destructuring was not enabled")
 			}
 		pub rule destruct_object(s: &ParserSettings) -> Destruct
-			= "{" _
-				fields:(name:id() into:(_ ":" _ into:destruct(s) {into})? default:(_ "=" _ v:spanned(<expr(s)>, s) {v})? {(name, into, default.map(Rc::new))})**comma()
+			= "{" _ body:(
+				rest:destruct_rest() comma()? {(Vec::new(), Some(rest))}
+				/ fields:(name:id() into:(_ ":" _ into:destruct(s) {into})? default:(_ "=" _ v:spanned(<expr(s)>, s) {v})? {(name, into, default.map(Rc::new))})**comma()
 				rest:(
 					comma() rest:destruct_rest()? {rest}
 					/ comma()? {None}
-				)
-			_ "}" {?
+				) {(fields, rest)}
+			) _ "}" {?
+				let (fields, rest) = body;
 				#[cfg(feature = "exp-destruct")] return Ok(Destruct::Object {
 					fields,
 					rest,
